@@ -47,8 +47,6 @@ ASSUMPTIONS = [
     "adds non-decreasing offsets and always emits (0, all, 0.0) first - C15_aggregate_sorted_from_zero); unsorted lists or "
     "lists without that first breakpoint are not reachable and are only used to compare model and code (L2), the spec "
     "`sorted, starts at 0` is not demanded of them",
-    "C15_force_genotypes_conforms_partial / C15_pipeline_conforms_partial: at every forced position at least one candidate "
-    "configuration has a non-zero float likelihood (violated by real inputs: finding force:likelihood-underflow)",
 ]
 
 HEADER = """From Coq Require Import ZArith List Bool Arith.
@@ -1106,6 +1104,9 @@ def run(ctx):
         dispatch_events(ctx, ev, item["rep"], "traced", b)
         indiv.append(item)
         ctx.tally(f"matrix.ploidy{inst['k']}")
+        ctx.tally(f"matrix.sens{inst['sens']}")
+        ctx.tally("matrix.prephasing" if inst.get("prephase") else "matrix.no_prephasing")
+        ctx.tally(f"matrix.nvars{'2-3' if len(inst['positions']) <= 3 else '>=4'}")
     for i in range(ctx.n(2, 12)):
         inst = G.gen_matrix_instance(rng, k=2, nvars=rng.randint(3, 6), nreads=10, deep=True)
         inst["deep"] = True
@@ -1150,6 +1151,23 @@ def run(ctx):
         s = make_cli_spec(rng, ploidy=k)
         s["sens"] = i % 6
         s["prephase"] = (i % 3 == 1) or s["prephase"]
+        # rarely drawn values are forced in turn so that every one occurs a few times in every run
+        if i % 6 == 0:
+            s["only_snvs"] = True
+        if i % 6 == 1:
+            s["monomorphic"] = True
+        if i % 6 == 2:
+            s["gz_in"] = True
+        if i % 6 == 3:
+            s["min_overlap"] = 3
+        if i % 5 == 4:
+            s["threads"] = 2 + (i % 2)
+        if i % 7 == 3:
+            s["tag"] = "HP"
+        if i % 9 == 4:
+            s["nvars"] = 1 + (i % 3)
+        if i % 8 == 5:
+            s["nsamples"], s["only_first_sample"], s["ignore_rg"] = 1, False, True
         specs.append(s)
     for _ in range(ctx.n(1, 8)):                     # --distrust-genotypes: only blocks / frame are demanded
         s = make_cli_spec(rng)
